@@ -18,7 +18,9 @@ GENERIC_TECH = "symbolic execution of the real Python code on z3-backed values; 
 # property -> (design section, specific text)
 CLAIMED = {
     'C01': ("6/C01", "Relation equations are checked per clause against the times the library reports for the referenced operation, for all durations >= 0."),
+    'C02': ("6/C02", "Listing = added leaves exactly once (by identity), causal, stable; symbolic durations and shared link objects make value-based merging of equal operations a solver-explored branch."),
     'C04': ("6/C04", "Span equation duration == max end - min start over the listed contents (z3 If-chains) for all durations >= 0, plus the follower clause."),
+    'C05': ("6/C05", "All 26 copy() implementations: field-by-field, channel, duration-term, relation-structure, schedule and acquisition equality of copy and original, then independence under mutation of either side."),
     'C12': ("6/C12", "Tiling, containment, disjointness, cover, translation and estimate clauses for unbounded symbolic round counts."),
     'C16': ("6/C16", "Class B (finite): tables of the real predicates are read on every run and z3 decides the equivalence with the statement's predicate for all subsets of <= 4 edges x idle qubits at once; the composition lemma and the generator are executed on the real code within the stated bounds."),
     'C17': ("6/C17", "Class B (finite): shipped tables are read into z3 lookup tables and each clause is a solver witness query over layer/gate/qubit indices; derived and composite descriptions are executed on bounded families of involved-qubit subsets."),
